@@ -2633,10 +2633,55 @@ func entryClose(x, y string) bool {
 		}
 	}
 	px, py := strings.Split(fx[5], ":"), strings.Split(fy[5], ":")
-	if len(px) != len(py) || px[0] != py[0] || px[1] != py[1] {
+	if len(px) != len(py) || px[0] != py[0] || px[1] != py[1] || len(px) < 4 {
 		return false
 	}
-	return true // shape, spread, stop count equal; numeric parts differ by NREG quantisation
+	// shape, spread, stop count equal; the numeric parts may differ by the quantisation of the number registers, and by no
+	// more (round 5, C07-J: a stream that lacked the gradient's matrix altogether passed as "close").  Anything beyond
+	// that is not a verdict but sends the caller to the exact comparison (decoded program vs original, call by call).
+	num := func(t string) (float64, bool) {
+		v, err := strconv.ParseUint(t, 16, 64)
+		return math.Float64frombits(v), err == nil
+	}
+	sx, sy := strings.Split(px[2], ","), strings.Split(py[2], ",")
+	if len(sx) != len(sy) {
+		return false
+	}
+	for i := range sx {
+		ax, ay := strings.SplitN(sx[i], ".", 2), strings.SplitN(sy[i], ".", 2)
+		if len(ax) != 2 || len(ay) != 2 || ax[1] != ay[1] {
+			return false // stop colours are stored exactly
+		}
+		u, ok1 := num(ax[0])
+		v, ok2 := num(ay[0])
+		if ax[0] != ay[0] && (!ok1 || !ok2 || math.Abs(u-v) > math.Ldexp(math.Max(math.Abs(u), math.Abs(v)), -20)) {
+			return false
+		}
+	}
+	tx, ty := strings.Split(px[3], "."), strings.Split(py[3], ".")
+	if len(tx) != 6 || len(ty) != 6 {
+		return false
+	}
+	var u, v [6]float64
+	scale := 0.0
+	for i := range tx {
+		var ok1, ok2 bool
+		u[i], ok1 = num(tx[i])
+		v[i], ok2 = num(ty[i])
+		if !ok1 || !ok2 {
+			if tx[i] != ty[i] {
+				return false
+			}
+			u[i], v[i] = 0, 0
+		}
+		scale = math.Max(scale, math.Max(math.Abs(u[i]), math.Abs(v[i])))
+	}
+	for i := range u {
+		if !(math.Abs(u[i]-v[i]) <= math.Ldexp(scale, -18)) && tx[i] != ty[i] {
+			return false
+		}
+	}
+	return true
 }
 
 // ---------- C19 / C20 ----------
